@@ -122,6 +122,17 @@ func runC19(c *Ctx) {
 			return cm.Op == token.LEQ && fv != nil && fv.Name() == "ttl"
 		})
 		c.guardedBy(f, fresh, claim, "claim-only-if-fresh", "a claim is attempted only over the edge on which the tick is not older than the claim TTL", c.P.Pos(cf.Decl.Pos()))
+		// the claim entry's expiry is the same ttl the stale-tick guard compares against: a claim that expires earlier lets a
+		// lagging node (still inside the guard) win the same tick again
+		okTTL := false
+		for _, a := range f.Find(claim) {
+			call := a.N.(*ast.CallExpr)
+			if len(call.Args) >= 3 {
+				fv := selField(info, call.Args[2])
+				okTTL = fv != nil && fv.Name() == "ttl"
+			}
+		}
+		c.Check(okTTL, "claim-ttl=guard-ttl", "the claim is written with the same ttl the stale-tick guard uses (the winner's claim outlives every tick that may still be claimed)", c.P.Pos(cf.Decl.Pos()), "ClaimScheduleFire is not given claim.ttl")
 		// the switch maps ErrScheduleFireClaimed to (false, nil)
 		mapped := false
 		ast.Inspect(cf.Decl.Body, func(n ast.Node) bool {
